@@ -190,6 +190,12 @@ def coerce(v, kind):
         return Val(REAL, [x]), not_(nan)
     if isinstance(kind, KInt) and isinstance(v.kind, KBool):
         return vint(to_int(v)), TRUE
+    if isinstance(kind, KAny):
+        if isinstance(v.kind, (KInt, KBool)):
+            return Val(kind, [ANY_OF_INT(to_int(v))]), TRUE
+        if isinstance(v.kind, KStr):
+            return Val(kind, [ANY_OF_STR(v.terms[0])]), TRUE
+        return Val(kind, [z3.Int(uid("any"))]), TRUE
     if isinstance(kind, KOpt):
         if isinstance(v.kind, KNone):
             return opt_none(kind), TRUE
@@ -211,6 +217,10 @@ def coerce(v, kind):
             arrs = [z3.Lambda([i], t) for t in e.terms]
             return Val(kind, [v.terms[0]] + arrs), TRUE
     raise OutOfSubset("cannot store %r into %r" % (v.kind, kind))
+
+
+ANY_OF_INT = z3.Function("any_of_int", z3.IntSort(), z3.IntSort())
+ANY_OF_STR = z3.Function("any_of_str", z3.IntSort(), z3.IntSort())
 
 
 def opt_none(kind):
@@ -417,6 +427,7 @@ def compare(op, a, b):
             return or_(nan, r)
         return and_(not_(nan), r)
     if isinstance(a.kind, KStr) and isinstance(b.kind, KStr) or \
+            isinstance(a.kind, KAny) and isinstance(b.kind, KAny) or \
             isinstance(a.kind, KRef) and isinstance(b.kind, KRef):
         if op == "==":
             return a.terms[0] == b.terms[0]
